@@ -18,9 +18,17 @@ FUNCTIONS = ['uxarray.grid.grid.Grid.get_ball_tree',
     'uxarray.grid.neighbors.BallTree.query_radius@cartesian,count_only',
     'uxarray.grid.neighbors.BallTree.query_radius@spherical,count_only',
     'uxarray.grid.neighbors.KDTree.query_radius@cartesian,count_only',
-    'uxarray.grid.neighbors.KDTree.query_radius@spherical,count_only']
+    'uxarray.grid.neighbors.KDTree.query_radius@spherical,count_only',
+    'uxarray.grid.neighbors._prepare_xy_for_query@haversine,rad,rank2',
+    'uxarray.grid.neighbors._prepare_xy_for_query@haversine,rad,rank1',
+    'uxarray.grid.neighbors._prepare_xy_for_query@haversine,deg,rank2',
+    'uxarray.grid.neighbors._prepare_xy_for_query@haversine,deg,rank1',
+    'uxarray.grid.neighbors._prepare_xy_for_query@minkowski,rad,rank2',
+    'uxarray.grid.neighbors._prepare_xy_for_query@minkowski,rad,rank1',
+    'uxarray.grid.neighbors._prepare_xy_for_query@minkowski,deg,rank2',
+    'uxarray.grid.neighbors._prepare_xy_for_query@minkowski,deg,rank1']
 STANDINS = ["neighbours"]
 ASSUMPTIONS = []
 EXPLANATION = ""
-LEVEL_TEXT = 'get_ball_tree / get_kd_tree proved to hand back a tree whose element kind, coordinate system and metric are those of THIS call from every cache state; the coordinates setter proved to select / rebuild the tree of the requested kind; query (both classes, both coordinate systems) proved in dataflow form: the wrapped sklearn query gets the prepared points and the flags of the caller (sort_results in particular) on the tree of the element kind in force, indices come back unchanged (standard dtype, squeezed for one point), spherical distances in degrees unless radians were asked for; query_radius(count_only) proved to pass the radius in the unit the tree was built in (BallTree: degrees as documented; KDTree: unit of the query points); agreement with brute force bounded (sklearn assumed correct)'
+LEVEL_TEXT = '_prepare_xy_for_query proved for both metrics, degrees / radians, single and batched points: the sklearn tree is asked with the points supplied, (lat, lon) for haversine and (lon, lat) otherwise, in radians, and the array of the caller is not written (np.flip / np.expand_dims modelled as views); get_ball_tree / get_kd_tree proved to hand back a tree whose element kind, coordinate system and metric are those of THIS call from every cache state; the coordinates setter proved to select / rebuild the tree of the requested kind; query (both classes, both coordinate systems) proved in dataflow form: the wrapped sklearn query gets the prepared points and the flags of the caller (sort_results in particular) on the tree of the element kind in force, indices come back unchanged (standard dtype, squeezed for one point), spherical distances in degrees unless radians were asked for; query_radius(count_only) proved to pass the radius in the unit the tree was built in (BallTree: degrees as documented; KDTree: unit of the query points); agreement with brute force bounded (sklearn assumed correct)'
 LEVEL_NOTE = 'tree constructors as records of their arguments; tree.coordinates setter modelled; sklearn internals assumed'
